@@ -232,6 +232,8 @@ class FunGen:
                     choices += ["handler", "handler"]
             if r.random() < 0.15:
                 choices += ["exit"]
+            if r.random() < 0.12:
+                choices += ["letexit"]
         k = r.choice(choices)
         fn = getattr(self, "g_" + k)
         t = fn(ty, ctx, budget, eff)
@@ -440,6 +442,18 @@ class FunGen:
     def g_exit(self, ty, ctx, b, eff):
         a = self.gen("i64", ctx, b // 3, False)
         return T("exit %s" % a.at(1), 3, False)
+
+    def g_letexit(self, ty, ctx, b, eff):
+        """let h: i64 = <a term that may leave through `exit` in one branch>; exit <variable or literal>: the inner exit must win"""
+        pn, n = self.fresh_name(ctx)
+        cond, _ = self.cmp_text(ctx, max(1, b // 3))
+        inner = self.leaf("i64", ctx)
+        other = self.gen("i64", ctx, b // 3, False)
+        bound = "if %s { exit %s } else { %s }" % (cond, inner.at(1), other.at(4))
+        if self.r.random() < 0.5:
+            bound = "if %s { print_i64(%s); exit %s } else { %s }" % (cond, inner.at(4), inner.at(1), other.at(4))
+        last = self.leaf("i64", ctx + [(pn, "prd", "i64", n)])
+        return T("let %s: i64 = %s; exit %s" % (n, bound, last.at(1)), 3, False)
 
     def g_label(self, ty, ctx, b, eff):
         pname, name = self.fresh_name(ctx)
